@@ -49,6 +49,16 @@ def write_cmap(path: str, maps: List[Dict], shuffle_rng=None, extra_columns: boo
             f.write(base + ("\t0.0\t1.0\t1.0\n" if extra_columns else "\n"))
 
 
+# Query ids beyond 2^53 are valid CMAP ids (int64) but do not fit TLC's 32-bit integers: when QID_BASE is set, the
+# query CMAP is written with id + QID_BASE and every place that observes a query id subtracts it again (equality and
+# order of ids, all the properties talk about, are translation invariant).
+QID_BASE = 0
+
+
+def qid(v) -> int:
+    return int(v) - QID_BASE
+
+
 # ------------------------------------------------------------------------------------------ XMAP text
 _PAIR = re.compile(r"\((\d+),(\d+)\)")
 
@@ -87,7 +97,7 @@ def parse_xmap(path: str) -> Dict:
         rec = {"malformed": None, "raw": d}
         try:
             rec["id"] = int(d["XmapEntryID"])
-            rec["q"] = int(d["QryContigID"])
+            rec["q"] = qid(d["QryContigID"])
             rec["r"] = int(d["RefContigID"])
             rec["qs"] = dec_to_int(d["QryStartPos"], 1)
             rec["qe"] = dec_to_int(d["QryEndPos"], 1)
@@ -135,7 +145,7 @@ def arg_list(ref: str, qry: str, out: str, mode: str = "best", cpus: int = 1, ex
     for k, v in (extra or {}).items():
         a += [k, str(v)]
     if qids:
-        a += ["-qId"] + [str(x) for x in qids]
+        a += ["-qId"] + [str(int(x) + QID_BASE) for x in qids]
     if rids:
         a += ["-rId"] + [str(x) for x in rids]
     return a
@@ -251,7 +261,7 @@ def make_recorders(path_prefix: str):
 
         def handle(self, message):
             ia = message.data
-            _emit(self.prefix, {"ev": "Primary", "task": [int(ia.query.moleculeId), int(ia.query.shift),
+            _emit(self.prefix, {"ev": "Primary", "task": [qid(ia.query.moleculeId), int(ia.query.shift),
                                                            len(ia.query.positions)],
                                 "ref": int(ia.reference.moleculeId), "rev": bool(ia.reverseStrand),
                                 "peaks": [[int(p.position), float(p.score), float(p.height)] for p in ia.peaks]})
@@ -264,7 +274,7 @@ def make_recorders(path_prefix: str):
 
         def handle(self, message):
             ia, ra = message.initialAlignment, message.refinedAlignment
-            _emit(self.prefix, {"ev": "Refine", "task": [int(ia.query.moleculeId), int(ia.query.shift),
+            _emit(self.prefix, {"ev": "Refine", "task": [qid(ia.query.moleculeId), int(ia.query.shift),
                                                           len(ia.query.positions)],
                                 "ref": int(ia.reference.moleculeId), "rev": bool(ia.reverseStrand),
                                 "start": int(ra.correlationStart), "index": int(message.index),
@@ -281,7 +291,7 @@ def make_recorders(path_prefix: str):
             task = None
             for m in message.messages:
                 row = m.alignment
-                task = [int(m.query.moleculeId), int(m.query.shift), len(m.query.positions)]
+                task = [qid(m.query.moleculeId), int(m.query.shift), len(m.query.positions)]
                 segs = []
                 for s in row.segments:
                     segs.append({"peak": int(s.peak.position), "score": float(s.segmentScore),
